@@ -130,10 +130,9 @@ impl Visitor<Diagnostic> for RuleDeclaredEnumeratedValues<'_> {
     ) -> Result<Self::Value, Diagnostic> {
         let defined_values = self.find_enum_declaration_values(&init.type_name)?;
         if let Some(value) = &init.initial_value {
-            // TODO this is using the Id, but not the full enumerated value
-            // and we don't have declared appropriate comparison between things
-            // that are known but partially declared
-            if !defined_values.contains(value) {
+            // The value may be written with its type prefix (Color#Red); the
+            // declared values carry none, so compare the value names.
+            if !defined_values.iter().any(|v| v.value == value.value) {
                 return Err(Diagnostic::problem(
                     Problem::EnumValueNotDefined,
                     Label::span(value.span(), "Expected value in enumeration"),
